@@ -12,7 +12,7 @@ import vlib
 
 LEVEL = "model_checking"
 
-HPACK_DEFECTS = ["IgnoreSetting", "NoSizeUpdate", "OnlyFinalUpdate", "NoEvict"]
+HPACK_DEFECTS = ["IgnoreSetting", "NoSizeUpdate", "OnlyFinalUpdate", "NoEvict", "MutedNoInsert"]
 FRAME_DEFECTS = ["NoAdvance", "DrainFirstOnly", "PartialBlock"]
 FLOW_DEFECTS = ["NoConnCharge", "IgnoreFrameSize", "NoSettingsAdjust", "LostWakeup"]
 
@@ -38,9 +38,13 @@ def run(ctx):
 
     # ---------- 1. design level: the intended design satisfies the properties, every named defect is rejected
     hp_cases, fr_cases, fl_cases = (os.path.join(T, n) for n in ("hp_cases.jsonl", "fr_cases.jsonl", "fl_cases.jsonl"))
+    hl_cases = os.path.join(T, "hp_limit_cases.jsonl")
     sfx = ".cfg" if q else "_thorough.cfg"
+    # Hpack_limit: the same module with a receiver in front of the decoder whose header-list limit the histories cross
+    # (blocks that are truncated / refused, decoded to their end all the same, and referred to by later blocks)
     jobs = [pool.submit(vlib.run_tlc, ctx, "wire", "H2Flow", "H2Flow" + sfx, workers=1, cases_to=fl_cases, timeout=1700),
             pool.submit(vlib.run_tlc, ctx, "wire", "Hpack", "Hpack" + sfx, workers=1, cases_to=hp_cases, timeout=1200),
+            pool.submit(vlib.run_tlc, ctx, "wire", "Hpack", "Hpack_limit" + sfx, workers=1, cases_to=hl_cases, timeout=1200),
             pool.submit(vlib.run_tlc, ctx, "wire", "H2Frames", "H2Frames" + sfx, workers=1, cases_to=fr_cases, timeout=1200)]
     rej = []
     for mod, ds in (("Hpack", HPACK_DEFECTS), ("H2Frames", FRAME_DEFECTS), ("H2Flow", FLOW_DEFECTS)):
@@ -56,12 +60,15 @@ def run(ctx):
             raise vlib.Inconclusive("%s model does not reject the defect %s: invariants vacuous (%s)" % (mod, d, r["errors"][:2]))
     binary = build.result()
 
-    # ---------- 2. real code: replay / record
-    hp_trace, fr_trace = os.path.join(T, "hp.ndjson"), os.path.join(T, "fr.ndjson")
+    # ---------- 2. real code: replay / record (the histories with a receiver are replayed and validated next to the others)
+    hp_trace, hl_trace, fr_trace = os.path.join(T, "hp.ndjson"), os.path.join(T, "hl.ndjson"), os.path.join(T, "fr.ndjson")
     d_hp = pool.submit(vlib.run_driver, ctx, binary, ["-mode", "hpack", "-cases", hp_cases, "-trace", hp_trace], 900)
+    d_hl = pool.submit(vlib.run_driver, ctx, binary, ["-mode", "hpack", "-cases", hl_cases, "-trace", hl_trace], 900)
     d_fr = pool.submit(vlib.run_driver, ctx, binary, ["-mode", "frames", "-cases", fr_cases, "-trace", fr_trace], 1500)
     d_hp.result()
     v_hp = pool.submit(vlib.validate_trace, ctx, "wire", "HpackTrace", "HpackTrace.cfg", hp_trace, 1500)
+    d_hl.result()
+    v_hl = pool.submit(vlib.validate_trace, ctx, "wire", "HpackTrace", "HpackTrace.cfg", hl_trace, 1500)
     d_fr.result()
     v_fr = pool.submit(vlib.validate_trace, ctx, "wire", "H2FramesTrace", "H2FramesTrace.cfg", fr_trace, 1500)
 
@@ -73,45 +80,9 @@ def run(ctx):
             raise vlib.Inconclusive("trace validation of %s did not complete:\n%s" % (part, v["text"][-1500:]))
         return mm
 
-    # hpack
-    evs = vlib.read_jsonl(hp_trace)
-    mm = settle("hpack", v_hp.result(), evs)
-    nblk = sum(1 for e in evs if e["ev"] == "blk")
-    ctx.cov["traces_validated_against_impl"] += sum(1 for e in evs if e["ev"] == "case")
-    ctx.cov["evaluations"] += nblk
-    ctx.cov.setdefault("parts", {})["hpack"] = dict(histories=sum(1 for e in evs if e["ev"] == "case") // 2, blocks=nblk)
-    ctx.sample({"part": "hpack", "trace_head": evs[:3]})
-    dirs, cur = {}, None
-    for i, e in enumerate(evs, 1):
-        if e["ev"] == "case":
-            cur = e["dir"]
-        dirs[i] = cur
-    if any("wire-unreadable" in k for k in mm.values()):
-        raise vlib.Inconclusive("the driver's own HPACK reader could not read a block: %s" % sorted(mm.items())[:2])
-    # Blame: in m2x the decoder is the reference, in x2m the encoder is.  A block from MOSN's encoder that the
-    # specification's decoder accepts (valid for the shared table, means the input list, MOSN's table as specified)
-    # but x/net's decoder does not, is a deviation of the reference, and so is a wire from x/net's encoder that the
-    # specification rejects: both are recorded in the evidence, neither is a verdict about MOSN.
-    WIRE = {"wire-invalid-for-the-shared-table", "wire-means-another-list", "sensitive-field-indexed",
-            "table-larger-than-announced-size", "smallest-size-not-signalled"}
-    DEC = {"decoder-rejected-block", "decoded-list-differs"}
-    refdev = {}
-    for line, kinds in sorted(mm.items()):
-        d = dirs.get(line)
-        if d == "m2x" and kinds <= DEC:
-            refdev.setdefault("x/net decoder rejects a block the specification accepts", []).append(line)
-            continue
-        if d == "x2m" and kinds & WIRE:
-            refdev.setdefault("x/net encoder emits a block the specification rejects", []).append(line)
-            continue
-        for kind in sorted(kinds):
-            vlib.report_failure(ctx, "C18:hpack:%s:%s" % (d, kind),
-                                dict(line=line, event=evs[line - 1], context=evs[max(0, line - 4):line]))
-    for what, lines in refdev.items():
-        ctx.notes.append("reference deviation (not a verdict): %s, %d blocks, e.g. %s" % (
-            what, len(lines), json.dumps(evs[lines[0] - 1])[:700]))
-    ctx.cov["parts"]["hpack"]["reference_deviations"] = {k: len(v) for k, v in refdev.items()}
-    hard_reject(ctx, "hpack", v_hp.result(), evs)
+    # hpack: the bare decoders, then the decoders behind a receiver with a header-list limit
+    for part, trace, vjob in (("hpack", hp_trace, v_hp), ("hpack_limit", hl_trace, v_hl)):
+        judge_hpack(ctx, settle, part, trace, vjob.result())
 
     # frames
     evs = vlib.read_jsonl(fr_trace)
@@ -216,23 +187,81 @@ def run(ctx):
     finish_cov(ctx, q, per, len(allflow))
 
 
+def judge_hpack(ctx, settle, part, trace, v):
+    """One recorded HPACK trace (case/set/blk events) against HpackTrace: mismatches, blame, verdicts."""
+    evs = vlib.read_jsonl(trace)
+    mm = settle(part, v, evs)
+    nblk = sum(1 for e in evs if e["ev"] == "blk")
+    ctx.cov["traces_validated_against_impl"] += sum(1 for e in evs if e["ev"] == "case")
+    ctx.cov["evaluations"] += nblk
+    ctx.cov.setdefault("parts", {})[part] = dict(
+        histories=sum(1 for e in evs if e["ev"] == "case") // 2, blocks=nblk,
+        histories_with_header_list_limit=sum(1 for e in evs if e["ev"] == "case" and e["limit"] < 1000000) // 2,
+        blocks_by_receiver_verdict={k: sum(1 for e in evs if e["ev"] == "blk" and e["verdict"] == k)
+                                    for k in ("ok", "truncated", "malformed")})
+    ctx.sample({"part": part, "trace_head": evs[:3]})
+    dirs, cur = {}, None
+    for i, e in enumerate(evs, 1):
+        if e["ev"] == "case":
+            cur = e["dir"]
+        dirs[i] = cur
+    if any("wire-unreadable" in k for k in mm.values()):
+        raise vlib.Inconclusive("the driver's own HPACK reader could not read a block: %s" % sorted(mm.items())[:2])
+    # Blame: in m2x the decoder is the reference, in x2m the encoder is.  A block from MOSN's encoder that the
+    # specification's decoder accepts (valid for the shared table, means the input list, MOSN's table as specified)
+    # but x/net's decoder does not, is a deviation of the reference, and so is a wire from x/net's encoder that the
+    # specification rejects: both are recorded in the evidence, neither is a verdict about MOSN.
+    WIRE = {"wire-invalid-for-the-shared-table", "wire-means-another-list", "sensitive-field-indexed",
+            "table-larger-than-announced-size", "smallest-size-not-signalled"}
+    DEC = {"decoder-rejected-block", "decoded-list-differs"}
+    refdev = {}
+    for line, kinds in sorted(mm.items()):
+        d = dirs.get(line)
+        if d == "m2x" and "block-verdict-differs" in kinds:
+            # in m2x the receiver in front of x/net's decoder is the driver's transcription of the specification's
+            raise vlib.Inconclusive("the driver's reference receiver disagrees with Hpack.tla RcvOne/Verdict: %s"
+                                    % json.dumps(evs[line - 1])[:600])
+        if d == "m2x" and kinds <= DEC:
+            refdev.setdefault("x/net decoder rejects a block the specification accepts", []).append(line)
+            continue
+        if d == "x2m" and kinds & WIRE:
+            refdev.setdefault("x/net encoder emits a block the specification rejects", []).append(line)
+            continue
+        for kind in sorted(kinds):
+            vlib.report_failure(ctx, "C18:hpack:%s:%s" % (d, kind),
+                                dict(line=line, event=evs[line - 1], context=evs[max(0, line - 4):line]))
+    for what, lines in refdev.items():
+        ctx.notes.append("reference deviation (not a verdict): %s, %d blocks, e.g. %s" % (
+            what, len(lines), json.dumps(evs[lines[0] - 1])[:700]))
+    ctx.cov["parts"][part]["reference_deviations"] = {k: len(v) for k, v in refdev.items()}
+    hard_reject(ctx, "hpack", v, evs)
+
+
 def finish_cov(ctx, q, per, nall):
     ctx.cov["exhaustive"] = False
     ctx.cov["rule"] = ("hpack: every history of <=%d field/end-of-block operations and <=2 (thorough 3) SETTINGS changes (field from 8 shapes incl. static full/name match, repeated name, "
                        "sensitive, long huffman value | SETTINGS_HEADER_TABLE_SIZE in {0,36,73,4096}: exact fits of one and two entries | end of block), both "
-                       "directions MOSN<->x/net, one evaluation per header block (exhaustive); frames: every sequence of <=%d units "
+                       "directions MOSN<->x/net, one evaluation per header block (exhaustive); hpack behind a receiver: every history of <=%d "
+                       "operations (5 field shapes incl. a pseudo header and a sensitive field, <=1 SETTINGS change to 73) x header-list limit in "
+                       "{50,73,4096} (second field crosses / exact fit of two / never crossed: malformed lists only), blocks as HEADERS+CONTINUATION "
+                       "written by x/net's Framer and read by MFramer.ReadFrame with MaxHeaderListSize = limit (x/net side: its decoder behind the "
+                       "specification's receiver), verdict ok/truncated/stream error, delivered list and MOSN's table judged after every block "
+                       "(exhaustive); frames: every sequence of <=%d units "
                        "(HEADERS x padding x priority x 0..3 (thorough 0..4) CONTINUATION, DATA x padding x length, SETTINGS, WINDOW_UPDATE, PING, "
                        "RST_STREAM, PRIORITY, GOAWAY) written by x/net and read by MFramer whole, cut at every byte offset, and "
                        "byte-wise (exhaustive; one evaluation per read-back); flow: per variant (direction x unit 1|7|8192 bytes x "
                        "buffered|streamed body) a VERIF_SEED sample of %d of the %d schedules TLC enumerated (2 streams, bodies, "
                        "initial windows, connection window, <=%d peer operations WU/WUconn/SETTINGS), one evaluation per DATA frame / "
-                       "sync point / header block / end of case" % (4 if q else 5, 2, per, nall, 3 if q else 4))
+                       "sync point / header block / end of case" % (4 if q else 5, 5 if q else 6, 2, per, nall, 3 if q else 4))
     ctx.assumptions += ["the peer changes SETTINGS only while the sender is quiet (a DATA frame taken under the old value may "
                         "legitimately follow the acknowledgement otherwise); WINDOW_UPDATEs arrive at any time",
                         "clear-text HTTP/2 with prior knowledge on both sides of MOSN; x/net v0.23.0 is the reference peer",
                         "MOSN never sends frames larger than 16384 bytes, so a larger SETTINGS_MAX_FRAME_SIZE is never binding",
                         "a sender that has not moved %d s after the window opened is judged stalled" % 25,
-                        "Huffman coding is covered through the round trips only"]
+                        "Huffman coding is covered through the round trips only",
+                        "header-list limits are larger than every single string of the histories (MOSN also uses the limit as the "
+                        "decoder's maximum string length, beyond which the connection ends); the HEADERS frame of a limited block "
+                        "carries at least one byte of it"]
 
 
 
